@@ -106,7 +106,12 @@ pub fn check(t: &Trace<'_>, out: &mut CaseOut) -> bool {
                 return false;
             }
             let rx_too_small = rx_smaller_than_connect(t, conn);
+            // (the known finding is about a CONNECT that fits neither the free arena nor the
+            // receive buffer; where the free arena - retained packets moved together - has the
+            // room, nothing excuses the failure)
+            let arena_has_room = snap0.zip(connect_room_needed(t, conn)).is_some_and(|(s, need)| s.tx.capacity.saturating_sub(s.tx.retained.iter().map(|e| e.len).sum::<usize>()) >= need);
             let sig = match (e, full) {
+                (ErrRepr::BufferTooSmall, true) if arena_has_room => "C12/connect/BufferTooSmall/although-the-arena-has-room".to_string(),
                 (ErrRepr::BufferTooSmall, true) if rx_too_small => "C12/connect/BufferTooSmall/arena-occupied-and-rx-smaller-than-CONNECT".to_string(),
                 (ErrRepr::BufferTooSmall, true) => "C12/connect/BufferTooSmall/arena-occupied".to_string(),
                 _ => format!("C12/connect/{:?}", e),
@@ -179,7 +184,9 @@ pub fn check(t: &Trace<'_>, out: &mut CaseOut) -> bool {
 
 /// Is the receive buffer too small to encode this session's CONNECT in it? (The CONNECT is
 /// encoded in the free part of the transmit arena or, failing that, in the idle receive buffer.)
-pub fn rx_smaller_than_connect(t: &Trace<'_>, conn: usize) -> bool {
+/// Room (bytes of scratch) that encoding this session's CONNECT takes: its body plus the five
+/// bytes the encoder reserves for the fixed header.
+pub fn connect_room_needed(t: &Trace<'_>, conn: usize) -> Option<usize> {
     let w = t.w;
     // size of this session's CONNECT, from any earlier connection that got it onto the wire
     // (the encoder reserves 5 bytes for the fixed header in front of the body)
@@ -198,6 +205,9 @@ pub fn rx_smaller_than_connect(t: &Trace<'_>, conn: usize) -> bool {
             len - hdr + 5 + now_id.saturating_sub(seen_id)
         }))
         .max();
-    let rx_too_small = connect_need.is_none_or(|l| t.log.cfg.rx < l);
-    rx_too_small
+    connect_need
+}
+
+pub fn rx_smaller_than_connect(t: &Trace<'_>, conn: usize) -> bool {
+    connect_room_needed(t, conn).is_none_or(|l| t.log.cfg.rx < l)
 }
